@@ -1,4 +1,6 @@
 import Nsl.Props.C01
+import Nsl.Props.C01Storage
+import Nsl.Props.LowerOK
 /-!
 # C05 – accepted programs do not go wrong   (partial)
 
@@ -112,5 +114,25 @@ theorem C05_scalar_core_runs (M : Core.Module) (hM : ScalarCore M) (fuel : Nat) 
   exact ⟨fuel', by rw [h]; rfl⟩
 
 #print axioms C05_scalar_core_runs
+
+/-- The same with local arrays and structs used as storage. -/
+theorem C05_storage_core_runs (M : Core.Module) (hM : StorageCore M) (fuel : Nat) (name : String) (args : List Val)
+    (g : Globals) (v : Val) (g' : Globals) (as : List Val) (hargs : HostVals args) (hg : HostGlobals g)
+    (href : CoreSem.invoke M fuel name args g = .done v g' as) :
+    ∃ fuel', Res.isInternal (VM.invoke (lowerModule M) fuel' name args g) = false := by
+  obtain ⟨fuel', h⟩ := C01_compile_correct_storage M hM fuel name args g v g' as hargs hg href
+  exact ⟨fuel', by rw [h]; rfl⟩
+
+#print axioms C05_storage_core_runs
+
+/-- … and at the other optimisation level (scalar core). -/
+theorem C05_scalar_core_runs_optimised (M : Core.Module) (hM : ScalarCore M) (hS : NoShadow M) (fuel : Nat) (name : String)
+    (args : List Val) (g : Globals) (v : Val) (g' : Globals) (as : List Val) (hargs : HostVals args) (hg : HostGlobals g)
+    (href : CoreSem.invoke M fuel name args g = .done v g' as) :
+    ∃ fuel', Res.isInternal (VM.invoke (Opt.optProgram (lowerModule M)) fuel' name args g) = false := by
+  obtain ⟨fuel', h⟩ := C01_opt_compile_correct M hM hS fuel name args g v g' as hargs hg href
+  exact ⟨fuel', by rw [h]; rfl⟩
+
+#print axioms C05_scalar_core_runs_optimised
 
 end Nsl
